@@ -50,12 +50,26 @@ def main():
         verdict = res.split()[0] if res else "?"
         rows.append((sid, prop, verdict, res))
         print(sid, verdict, res[:160], flush=True)
-    if not a.only:
-        with open(os.path.join(root, "SUMMARY.md"), "w") as f:
-            f.write("| seed | own check | result (" + a.tier + " tier) |\n|---|---|---|\n")
-            for sid, prop, verdict, res in rows:
-                sigs = res[res.find("["):][:220] if "[" in res else ""
-                f.write(f"| {sid} | {prop} | {verdict} {sigs} |\n")
+    # SUMMARY.md: rows of the seeds just run replace their old rows, the others stay
+    sp = os.path.join(root, "SUMMARY.md")
+    table = {}
+    if a.only and os.path.exists(sp):
+        for ln in open(sp).read().splitlines()[2:]:
+            cells = [c.strip() for c in ln.strip("|").split("|", 2)]
+            if len(cells) == 3 and "-" in cells[0]:
+                table[cells[0]] = (cells[1], cells[2])
+    for sid, prop, verdict, res in rows:
+        sigs = res[res.find("["):][:220] if "[" in res else ""
+        table[sid] = (prop, f"{verdict} {sigs}")
+
+    def order(sid):
+        pr, _, n = sid.partition("-")
+        return (pr, int(n) if n.isdigit() else 0)
+
+    with open(sp, "w") as f:
+        f.write("| seed | own check | result (" + a.tier + " tier) |\n|---|---|---|\n")
+        for sid in sorted(table, key=order):
+            f.write(f"| {sid} | {table[sid][0]} | {table[sid][1]} |\n")
     return 0 if all(v in ("DETECTED", "SUPERSEDED", "OUT-OF-REACH") for _, _, v, _ in rows) else 1
 
 
